@@ -711,6 +711,14 @@ func gen(repo string) (map[string]string, error) {
 		"dpReplicasShape", strings.Contains(gdr.Text, `if keyObj.PoolName != ""`) && strings.Contains(gdr.Text, "return obj.Size, true, nil") &&
 			strings.Contains(gdr.Text, "return replicas, false, nil"))
 
+	gdd := decisions(gdr, gdr.Decl.Body.List)
+	letI := indexOf(gdd, "let", "replicas, err := p.getReplicasOfDeployment(keyObj)")
+	retI := indexOf(gdd, "otherwise", "return replicas, false, nil")
+	fact("the quota of a deployment without sized pool is `spec.replicas` and nothing else: getReplicasOfDeployment assigns `int(*obj.Spec.Replicas)` (0 when unknown) and getDpReplicas returns exactly that value (`return replicas, false, nil`)",
+		"dpReplicasIsSpecReplicas", before(letI, retI) && retI == len(gdd)-1 && strings.Count(gdr.Text, "replicas") == strings.Count(gdr.Text, "replicas, err := p.getReplicasOfDeployment(keyObj)")+strings.Count(gdr.Text, "return replicas, false, nil") &&
+			strings.Count(grd.Text, "replicas =") == 1 && strings.Contains(grd.Text, "replicas = int(*obj.Spec.Replicas)") && strings.Contains(grd.Text, "replicas := 0") &&
+			strings.HasSuffix(grd.Text, "return replicas, nil }"))
+
 	// ---------------------------------------------------------------- ipam.go getAvailableSubnet
 	gas := forms["getAvailableSubnet"]
 	outer := findIf(gas, gas.Decl.Body, "keyObj.Deployment()", "policy")
